@@ -50,6 +50,10 @@ def compare(kind, actual, expected, ctx):
                 return ('C14:gc-removed-live:%s' % kind,
                         'garbage collection removed %s %r whose owner %r '
                         'exists' % (kind, key, want))
+            if cls == 'release-nonowner' and want == ctx.get('by'):
+                return ('C14:release-removed-unrelated:%s' % kind,
+                        '%s %r of %r was removed by %s although it was not '
+                        'named' % (kind, key, want, ctx.get('op')))
             if cls == 'release-nonowner':
                 return ('C14:nonowner-release-took-effect:%s' % kind,
                         '%s %r held by %r was released by %r' % (
